@@ -32,6 +32,7 @@ def main() -> int:
     ap.add_argument("--replay")
     ap.add_argument("--no-evidence", action="store_true")
     ap.add_argument("--replay-dir")
+    ap.add_argument("--dump-digests", help="write per-seed trace digests (determinism self-test)")
     args = ap.parse_args()
     bootstrap.setup()
 
@@ -72,6 +73,10 @@ def main() -> int:
         print("HARNESS-ERROR: nothing was evaluated")
         return 3
 
+    if args.dump_digests:
+        with open(args.dump_digests, "w") as f:
+            for i, d in sorted(st.per_seed):
+                f.write(f"{i} {d}\n")
     known = runner.load_known()
     groups = {}
     for (seed, i, rule, sig, detail, scn) in sorted(st.violations, key=lambda x: x[1]):
